@@ -12,7 +12,7 @@ import re
 from fractions import Fraction
 
 from analysis import (Prov, Guards, fmt, fmt_short, walk, roots, short, comparison, linear, _lin_add, const_int_of,
-                      callee_matches, transparent_args)
+                      callee_matches, transparent_args, cast_is_lossless)
 
 INT_RANGES = {"u8": (0, 2 ** 8 - 1), "u16": (0, 2 ** 16 - 1), "u32": (0, 2 ** 32 - 1), "u64": (0, 2 ** 64 - 1), "usize": (0, 2 ** 64 - 1),
               "i32": (-2 ** 31, 2 ** 31 - 1), "i64": (-2 ** 63, 2 ** 63 - 1), "isize": (-2 ** 63, 2 ** 63 - 1)}
@@ -259,6 +259,8 @@ class Aff:
                 self.atom_ranges[a] = (0, 255)
                 return a
             if x[0] == "cast":
+                if not cast_is_lossless(x):
+                    return None
                 inner = self.value(x[1])
                 return inner
             if x[0] in ("param", "upvar"):
